@@ -2,7 +2,7 @@
 use super::{op_line, Gen};
 use crate::wire::data_of;
 
-pub const OPS: [&str; 50] = [
+pub const OPS: [&str; 52] = [
     "lcc lat_1=57 lon_0=12",
     "lcc lat_1=-33 lat_2=-45 lon_0=10",
     "omerc latc=55 lonc=12 alpha=30 gamma_c=30 k_0=0.9996",
@@ -53,6 +53,8 @@ pub const OPS: [&str; 50] = [
     "deformation t_epoch=2000 grids=ov.deformation,test.deformation,@null",
     "deformation dt=10 grids=test.deformation,eur_nkg_nkgrf17vel.deformation",
     "deflection grids=test.geoid,@null",
+    "gridshift grids=5458_with_subgrid.gsb",
+    "gridshift grids=5458_with_subgrid.gsb,test.datum inv",
 ];
 
 /// a second deformation grid overlapping `test.deformation` (54-58 N, 8-16 E) in 56-58 N, 12-16 E, with
@@ -109,6 +111,43 @@ pub fn deflection_set(g: &mut Gen, n: usize) -> Vec<[f64; 4]> {
             (6, _) => [f64::NAN, 12.0, 0.0, 0.0],
             (7, _) => [55.0, f64::NAN, 0.0, 0.0],
             _ => fresh,
+        };
+        v.push(c);
+    }
+    v
+}
+
+/// geographic tuples (radians) for an NTv2 file with a densified child (5556: 55-56 N, 12-13 E, inside the
+/// parent 5458: 54-58 N, 8-16 E): neighbours in the set alternate between parent-only, child, border, outside
+pub fn subgrid_set(g: &mut Gen, n: usize) -> Vec<[f64; 4]> {
+    let spots: [(f64, f64); 10] = [(57.0, 10.0), (55.25, 12.3), (55.75, 12.9), (54.5, 15.0), (55.5, 12.5), (55.0, 12.0), (56.0, 13.0), (55.5, 13.5), (59.0, 12.0), (55.99, 12.99)];
+    (0..n)
+        .map(|i| {
+            let (lat, lon) = if i % 2 == 0 { *g.rng.pick(&spots[..1]) } else { *g.rng.pick(&spots) };
+            let (lat, lon) = if g.rng.chance(1, 3) { (lat, lon) } else { (lat + g.rng.uniform(-0.2, 0.2), lon + g.rng.uniform(-0.2, 0.2)) };
+            match g.rng.below(20) {
+                0 => [f64::NAN, lat.to_radians(), 0.0, 0.0],
+                _ => [lon.to_radians(), lat.to_radians(), 0.0, 0.0],
+            }
+        })
+        .collect()
+}
+
+/// projected tuples (metres) for the inverse of a projection: near the false origin, across the
+/// domain, far outside it (no point of the ellipsoid maps there), infinite, broken
+pub fn projected_set(g: &mut Gen, n: usize) -> Vec<[f64; 4]> {
+    let mut v: Vec<[f64; 4]> = vec![];
+    for _ in 0..n {
+        let t = *g.rng.pick(&[2000.0, 2010.5, f64::NAN]);
+        let c = match g.rng.below(12) {
+            0 => [f64::NAN, 6.1e6, 0.0, t],
+            1 => [5.0e5, f64::NAN, 10.0, t],
+            2 => [4.0e7, 1.0e6, 0.0, t],
+            3 => [-3.0e5, *g.rng.pick(&[-9.0e7, 1.0e9, 1.0e300, f64::INFINITY]), 0.0, t],
+            4 if !v.is_empty() => v[g.rng.below(v.len())],
+            5 => [0.0, 0.0, 0.0, t],
+            6 => [4321000.0, 3210000.0, 0.0, t],
+            _ => [g.rng.uniform(-2.0e6, 5.0e6), g.rng.uniform(-3.0e6, 8.0e6), (g.rng.uniform(-100.0, 3000.0) * 100.0).round() / 100.0, t],
         };
         v.push(c);
     }
@@ -174,9 +213,11 @@ pub fn generate(g: &mut Gen, thorough: bool) {
             } else {
                 mixed_set(g, n)
             };
-            let data = data_of(&set);
+            let set = if def.contains("with_subgrid") { subgrid_set(g, n) } else { set };
             let kind = if def.contains("grids=") { "plain-new" } else { "new" };
+            let projection = !def.contains('|') && ["lcc", "omerc", "somerc", "btmerc", "laea", "utm", "tmerc", "merc", "webmerc"].iter().any(|p| def.starts_with(p));
             for dir in ["F", "I"] {
+                let data = if dir == "I" && projection { data_of(&projected_set(g, n)) } else { data_of(&set) };
                 let seed = g.rng.next() % 1000000;
                 g.push(
                     format!("S_C02\t{}\t{}\t{}\t{}\t{}", kind, crate::wire::escape(def), dir, seed, data),
